@@ -23,9 +23,10 @@ C = {
  "C01": ("Hostile-input workload run in isolated worker processes under a crash/abort/allocation monitor: held on the "
          "tampered-but-signed data, byte-level mutations, hostile scripts and call results actually executed (thousands of "
          "distinct cases per run). A sentry cannot show totality for all inputs; it shows no crash on the classes driven, "
-         "and known recursion-depth crashes are listed as findings.",
+         "and known recursion-depth crashes are listed as findings. The thorough tier replays 6 000 of the cases under AddressSanitizer, 600 under "
+         "valgrind memcheck and runs a Miri (Tree Borrows) driver over complete interpreter runs, decode/print paths and text entry points.",
          "memory bound is an explicit loose linear bound (64 MiB + 256 x input bytes); a 60 s wall-clock watchdog is inconclusive, never a violation. " + TRUST,
-         "process-level crash/allocation sentry over hostile workloads", "5/C01"),
+         "process-level crash/allocation sentry over hostile workloads; ASan, valgrind memcheck and Miri passes in the thorough tier", "5/C01 and 12.8"),
  "C02": ("Online monitor at the execute_air boundary over every run of generated multi-peer histories plus a late-failure "
          "workload: failed runs must return prev byte-for-byte with no peers/requests, other runs must return decodable, "
          "verifiable data that contains every result handed in.", TRUST, "online outcome-rule monitor on every run", "5/C02"),
@@ -90,15 +91,15 @@ C = {
  "C23": ("Parser under a panic guard on generated, scoping-broken, mutated and random texts; every accepted tree is walked by an "
          "independent scoping checker. Three acceptance gaps are recorded as known findings.", TRUST, "totality sentry + independent scoping walker", "5/C23"),
  "C24": ("Each lens evaluated by the interpreter inside a script and by plain serde_json navigation (small exhaustive domain sample "
-         "+ random values/paths, canon streams and maps).", TRUST, "reference-model differential", "5/C24"),
+         "+ random values/paths, canon streams and maps).", TRUST, "reference-model differential; the thorough tier re-runs the workload under ASan and valgrind memcheck", "5/C24"),
  "C25": ("Nine construction routes per value against an independently computed CID; ~65 id mutations judged by the verify functions.",
-         TRUST, "reference-model differential + fault catalogue", "5/C25"),
+         TRUST, "reference-model differential + fault catalogue; the thorough tier re-runs the workload under ASan and valgrind memcheck", "5/C25"),
  "C26": ("JValue against serde_json::Value on conversion, printing, parsing, comparison and accessors over generated and directed values.",
-         TRUST, "reference-model differential", "5/C26"),
+         TRUST, "reference-model differential; the thorough tier re-runs the workload under ASan and valgrind memcheck", "5/C26"),
  "C27": ("Round trips of data, envelopes, call request/result maps through every decoder, with independent msgpack readers; codec-tag "
-         "replacement must fail.", TRUST, "round-trip monitor + tag fault catalogue", "5/C27"),
+         "replacement must fail.", TRUST, "round-trip monitor + tag fault catalogue; the thorough tier re-runs the workload under ASan and valgrind memcheck", "5/C27"),
  "C28": ("Beautifier output parsed by an independent reader and compared line by line with the rendering of the harness syntax tree.",
-         TRUST, "reference-model differential", "5/C28"),
+         TRUST, "reference-model differential; the thorough tier re-runs the workload under ASan and valgrind memcheck", "5/C28"),
 }
 
 NOT_BUILT = {
